@@ -72,6 +72,16 @@ theorem accessors_valid (names : List (Option Str)) : ∀ a ∈ accessors names,
 theorem accessors_not_reserved (names : List (Option Str)) : ∀ a ∈ accessors names, a ∉ reserved :=
   fun _ h => accessor_not_reserved h
 
+/-- Python's keywords are among the reserved names of the current source (whole lists, in the kernel) … -/
+theorem keywords_reserved : ∀ k ∈ Gen.pyKeywords, k.toList ∈ reserved := by
+  decide +kernel
+
+/-- … hence no advertised accessor is a Python keyword: `t.<accessor>` is always syntactically possible -/
+theorem accessors_not_keyword (names : List (Option Str)) :
+    ∀ a ∈ accessors names, ∀ k ∈ Gen.pyKeywords, a ≠ k.toList := by
+  intro a ha k hk e
+  exact accessors_not_reserved names a ha (e ▸ keywords_reserved k hk)
+
 /-- distinctness: one accessor per column, pairwise distinct, whatever the duplication pattern -/
 theorem accessors_distinct (names : List (Option Str)) :
     (accessors names).Nodup ∧ (accessors names).length = names.length :=
